@@ -520,6 +520,34 @@ class Ctx:
     return out
 
 
+class PathTimeout(BaseException):
+  """The code under test did not come back within the per-path wall-time cap."""
+
+
+def _alarm_handler(signum, frame):
+  raise PathTimeout()
+
+
+class _Watchdog:
+  def __init__(self, seconds):
+    self.s = seconds
+  def __enter__(self):
+    import signal
+    try:
+      self.old = signal.signal(signal.SIGALRM, _alarm_handler)
+      signal.setitimer(signal.ITIMER_REAL, self.s)
+      self.on = True
+    except ValueError:        # not in the main thread
+      self.on = False
+    return self
+  def __exit__(self, *a):
+    import signal
+    if self.on:
+      signal.setitimer(signal.ITIMER_REAL, 0)
+      signal.signal(signal.SIGALRM, self.old)
+    return False
+
+
 class CandidateViolation(BaseException):
   def __init__(self, clause, detail, model, what):
     self.clause, self.detail, self.model, self.what = clause, detail, model, what
@@ -641,7 +669,12 @@ def run_concrete(harness, cfg, model, caps=None, floats=False):
   """Run the harness natively.  -> dict(status, clause, detail, exc)"""
   ctx = ConcreteCtx(model, caps, floats)
   try:
-    harness(ctx, cfg)
+    with _Watchdog((caps or {}).get("path_s", 20)):
+      harness(ctx, cfg)
+  except PathTimeout:
+    return {"status": "failed", "clause": "termination", "ctx": ctx,
+            "detail": "the real code did not come back within %s s on these inputs (endless loop?)"
+                      % (caps or {}).get("path_s", 20)}
   except ClauseFailed as e:
     return {"status": "failed", "clause": e.clause, "detail": str(e.detail)[:500], "ctx": ctx}
   except PathAbort:
@@ -707,9 +740,16 @@ def explore(harness, cfg, caps, hname="?"):
     uncaught = None
     aborted = False
     try:
-      harness(ctx, cfg)
+      with _Watchdog(caps.get("path_s", 20)):
+        harness(ctx, cfg)
     except PathAbort:
       aborted = True
+    except PathTimeout:
+      Ctx.cur = ctx
+      try: md = ctx.model_dict()
+      finally: Ctx.cur = None
+      cand = CandidateViolation("termination", "path did not finish within %s s" % caps.get("path_s", 20), md,
+                                "watchdog")
     except CandidateViolation as cv:
       cand = cv
     except Unsupported as u:
